@@ -29,3 +29,29 @@ impl Rpc {
             r is Ok ==> final(w).last_polled == r->Ok_0.blockheight as int,
     { unimplemented!() }
 }
+
+// ---- the periodic poll task (poll_forever): timer, shutdown channel, ghost wake-up counters -----
+// `sleeps` counts the timer waits the task has started, `polls` the polls it has made after waking
+// up (ghost marker placed right after the poll_height call).  Clause of C20's catch-up half, in
+// its safety form: no timer wait is longer than the declared POLL_INTERVAL, and a new wait starts
+// only when every earlier wake-up was followed by a poll (failed polls included).
+pub struct PollGhost { pub sleeps: nat, pub polls: nat }
+#[verifier::external_body]
+pub proof fn ghost_polled(tracked p: &mut PollGhost)
+    ensures *final(p) == (PollGhost { polls: old(p).polls + 1, ..*old(p) })
+{ unimplemented!() }
+pub mod tokio { pub mod time {
+    use super::super::*;
+    #[verifier::external_body]
+    pub fn sleep(d: Duration, Tracked(p): Tracked<&mut PollGhost>)
+        requires
+            dur_ns(d) <= crate::block_watcher::POLL_INTERVAL__ns(),   // #no_wait_longer_than_the_poll_interval [C20]
+            old(p).sleeps == old(p).polls,                            // #every_wakeup_is_followed_by_a_poll [C20]
+        ensures *final(p) == (PollGhost { sleeps: old(p).sleeps + 1, ..*old(p) }),
+    { unimplemented!() }
+} }
+impl mpsc::Receiver<()> {
+    // the shutdown signal: may arrive at any time
+    #[verifier::external_body]
+    pub fn recv(&mut self) -> (r: Option<()>) { unimplemented!() }
+}
